@@ -354,6 +354,39 @@ def find_sites(mod):
     return sites
 
 
+def find_slot_sites(mod):
+    """Single-slot memos: `if <param> is self._last_a and ...: return <... self._last_v ...>` ... `self._last_v = value`.
+    The key is the tuple of compared parameters, the value what is stored in the slot the early return hands back."""
+    sites = []
+    for qual, fn in ri.functions_in(mod):
+        if not (fn.args.args and fn.args.args[0].arg == "self"):
+            continue
+        params = {a.arg for a in fn.args.args[1:] + fn.args.kwonlyargs}
+        for node in _FnInfo._own_nodes(fn):
+            if not isinstance(node, ast.If):
+                continue
+            rets = [r for st in node.body for r in ast.walk(st) if isinstance(r, ast.Return) and r.value is not None]
+            if not rets:
+                continue
+            slots = {a.attr for r in rets for a in ast.walk(r.value) if isinstance(a, ast.Attribute) and isinstance(a.value, ast.Name) and a.value.id == "self"}
+            compared = []
+            for c in ast.walk(node.test):
+                if isinstance(c, ast.Compare) and len(c.ops) == 1 and isinstance(c.ops[0], (ast.Is, ast.Eq)):
+                    sides = [c.left, c.comparators[0]]
+                    attr = next((x for x in sides if isinstance(x, ast.Attribute) and isinstance(x.value, ast.Name) and x.value.id == "self"), None)
+                    other = next((x for x in sides if x is not attr), None)
+                    if attr is not None and other is not None and any(isinstance(n, ast.Name) and n.id in params for n in ast.walk(other)):
+                        compared.append(other)
+            if not compared or not slots:
+                continue
+            for st in _FnInfo._own_nodes(fn):
+                if isinstance(st, ast.Assign) and len(st.targets) == 1 and isinstance(st.targets[0], ast.Attribute) and isinstance(st.targets[0].value, ast.Name) \
+                        and st.targets[0].value.id == "self" and st.targets[0].attr in slots and st.lineno > node.lineno:
+                    key = ast.Tuple(elts=list(compared), ctx=ast.Load())
+                    sites.append(Site(mod=mod, fn=fn, qual=qual, container=f"self.{st.targets[0].attr} (single slot)", shared=False, key_expr=key, val_expr=st.value))
+    return sites
+
+
 def analyse(site: Site):
     info = _FnInfo(site.fn)
     site.value_roots = _roots(site.val_expr, info)
@@ -393,7 +426,7 @@ def check_modules(chk, rule, modnames, floor=None, what=None):
     found = []
     for mn in modnames:
         mod = ri.need_module(mn)
-        for s in find_sites(mod):
+        for s in find_sites(mod) + find_slot_sites(mod):
             analyse(s)
             found.append(s)
             construct = f"{mn}::{s.qual}[memo {s.container}]"
